@@ -98,6 +98,8 @@ BASE_FLAGS = ["-fno-access-control", "-w", "-D" + GUARD, "-I" + VERIF]
 
 SAN_FLAGS = ["-fsanitize=address,undefined", "-fno-sanitize-recover=undefined",
              "-fno-omit-frame-pointer", "-g1"]
+# engine builds: reports are counted through __asan_on_error / __ubsan_on_report and the run continues
+SAN_RECOVER_FLAGS = ["-fsanitize=address,undefined", "-fsanitize-recover=address,undefined", "-fno-omit-frame-pointer", "-g1"]
 
 
 class BuildError(Exception):
@@ -109,7 +111,9 @@ def build(src_text, name, cxx="g++", std="c++17", opt="-O1", flags=(), flavour="
     """Compile src_text (a complete TU) into a cached binary; returns its path (None if allow_fail and
     the compiler rejected it; the first error lines are then in build.last_error)."""
     allflags = ["-std=" + std, opt] + BASE_FLAGS + FLAVOURS[flavour] + list(flags)
-    if san:
+    if san == "recover":
+        allflags += SAN_RECOVER_FLAGS
+    elif san:
         allflags += SAN_FLAGS
     key = hashlib.sha256("\0".join([tree_hash(), dep_hash(src_text), src_text, cxx] + allflags).encode()).hexdigest()[:20]
     d = os.path.join(BUILD, key)
@@ -182,7 +186,7 @@ def prune_cache(keep_recent_trees=2, max_gb=20):
 def run_json(cmd, timeout=None, env=None, stdin=None):
     """Run a harness binary that prints one JSON object per line on stdout. Returns (records, rc, stderr)."""
     e = dict(os.environ)
-    e.setdefault("ASAN_OPTIONS", "detect_leaks=0:abort_on_error=0:halt_on_error=1")
+    e.setdefault("ASAN_OPTIONS", "detect_leaks=0:abort_on_error=0:halt_on_error=0")
     e.setdefault("UBSAN_OPTIONS", "print_stacktrace=1")
     if env:
         e.update(env)
